@@ -273,7 +273,9 @@ def slice_op(sym, N, fn):
 BOUNDS = {
     'quick': 'n in [0,2] rows (symbolic) with cells and reference values None|int|str(len<=1) (n<=3 for None|int); ragged rows '
              '(short and long); facet over small domains; search with 6 concrete patterns over strings of length <= 2 over '
-             '{a,b,.,1}; slice arguments start/stop in {None,0..n+1}, step in {None,1,2,3} over n<=3 rows',
+             '{a,b,.,1}; slice arguments start/stop in {None,0..n+1}, step in {None,1,2,3} over n<=3 rows; membership in str / '
+             'list-of-lists / mapping containers; predicates returning non-bool truthiness; a row-form selection feeding a field-form '
+             'one; cross-type representative cells',
     'thorough': 'n in [0,3] mixed, [0,4] None|int',
 }
 OUTSIDE = 'selectcontains on non-container cells; regex patterns beyond the listed ones (the regex engine is C code: values realise); negative slice arguments (islice rejects them)'
